@@ -348,6 +348,6 @@ def teardown_worker(rec, ctx):
 
 META = {
     "technique": "offline checker over recorded client histories of perform_cached_doit (call/return events from scripted processes) with fault injection at the process' file-system boundary: SIGKILL at every enumerated write prefix / open / close / rename, injected delays, concurrent clients, hash-seed sweep, str-identical expression families",
-    "level_text": "Fault enumeration over three dimensions: (a) every call order (up to 3 members, forwards then backwards) of six families of expressions that print identically, under PYTHONHASHSEED unset / 0 / other, in one process and one process per call; (b) a client killed before open, after open, at 24 (quick) / 200 (thorough) byte prefixes of the payload incl. 0, 1, n-1, before close and around the rename, for three expressions, followed by two fresh clients; (c) 2-4 (thorough 8) clients released together on an empty or half-written directory with delays after open. Every completed call must return the digest of expr.doit() computed independently and must not raise; the evidence counts histories in which a read actually overlapped another client's write window.",
+    "level_text": "Fault enumeration over three dimensions: (a) every call order (up to 3 members, forwards then backwards) of six families of expressions that print identically, under PYTHONHASHSEED unset / 0 / other, in one process and one process per call; (b) a client killed before open, after open, at 24 (quick) / 200 (thorough) byte prefixes of the payload incl. 0, 1, n-1, before close and around the rename, for three expressions, followed by two fresh clients; (c) 2-4 (thorough 8) clients released together on an empty or half-written directory with delays after open. Every completed call must return the digest of expr.doit() computed independently and must not raise; the evidence counts histories in which a read actually overlapped another client's write window. Collision families: equal str, equal Python hash (Integer(-1)/Integer(-2)), and the same bound method of two configured objects.",
     "level_note": "Crash = process kill with the written prefix flushed; kernel-level torn writes and power loss are not modelled. Byte prefixes are enumerated exhaustively only for payloads shorter than the prefix budget.",
 }
